@@ -1,5 +1,6 @@
 import RxModel.Driver.SExp
 import RxModel.Conc.Footprint
+import RxModel.Conc.BehaviorLts
 /-
   Runner of suite `locks` (C10): the lock programs (`Conc.footprint`) of the
   operations of a script on a thread-safe subject with several subscriber
@@ -61,5 +62,15 @@ def runLocksCase (id : String) (subs : List SExp) (events : List (List SExp)) : 
         s!"{id}.{k} t={String.intercalate "," toks}" :: go names' (k + 1) r
       | none => [s!"{id}.{k} BADEV"]
   go [] 0 events
+
+/-- Suite `behaviorrace`: the schedule store₁, store₂, broadcast₂, broadcast₁ of
+    `C12_race_counterexample` executed on the behaviour-subject LTS. -/
+def runBehaviorRace (id : String) (events : List (List SExp)) : List String :=
+  let r := dexec Behavior.sem (mkState Behavior.progs2) (Behavior.d0 0)
+    [0, 0, 0, 1, 1, 1, 1, 1, 1, 0, 0, 0]
+  let line := match r with
+    | some x => s!"log={String.intercalate ";" (x.2.log.map fun v => s!"N{v}")} peek={x.2.value}"
+    | none => "log=? peek=?"
+  (List.range events.length).map fun k => s!"{id}.{k} {line}"
 
 end Rx.Driver.LocksS
